@@ -772,8 +772,8 @@ func panicReach(c *Check, rule string, entries []*ssa.Function, allow map[string
 		for _, b := range f.Blocks {
 			for _, ins := range b.Instrs {
 				pn, ok := ins.(*ssa.Panic)
-				if !ok {
-					continue
+				if !ok || !pn.Pos().IsValid() {
+					continue // synthetic panics (impossible fall-through of a blocking select) have no position
 				}
 				n++
 				key := fnName(f)
